@@ -1,14 +1,1796 @@
-//! C18 — not built yet.
-use crate::engine::{Ctx, Property};
+//! C18 — CFF and CFF2 outlines follow Type 2 charstring semantics.
+//!
+//! Forward construction: a *path model* (contours of relative line / cubic segments, with
+//! per-region variation deltas for CFF2) is encoded by `fontgen::type2` (free choice among
+//! the equivalent operator forms, number encodings, stem hints / hintmask / cntrmask, width,
+//! shared and ad-hoc subroutine factorings with padded INDEXes for every bias band, `blend` /
+//! `vsindex`), wrapped by `fontgen::cff` into a name-keyed CFF, a CID-keyed CFF (per-FD local
+//! subroutines through FDSelect 0/3) or a CFF2 table (FDArray / FDSelect / VariationStore),
+//! parsed with `CFF::read` / `CFF2::read` and visited with a recording `OutlineSink`. The
+//! delivered commands must equal the model path: one `move_to` per contour, `line_to` /
+//! `cubic_curve_to` at the accumulated coordinates, exactly one `close` per contour (before
+//! the next move and at the end), hints and width invisible. allsorts emits no closing
+//! `line_to`, neither does the model, so the command lists are compared as they are.
+//!
+//! Sections: `cff-name-keyed`, `cff-cid-keyed`, `cff2` (random fonts), `cff-seac` (endchar
+//! with 4/5 operands composing two StandardEncoding glyphs), and the enumerations
+//! `nesting-depth` (1..12: <= 10 draws, >= 11 must fail), `bias-bands` (INDEX sizes around
+//! 1240 / 33900 x called position), `stack-limits` (every path operator at 48 / ~60 / 513
+//! operands), `cff2-special` (blend with zero regions, several blends per operator),
+//! `fixture-fonts` (all CFF/CFF2 fonts under /repo/tests against `refmodel::type2`).
+//!
+//! Before allsorts is blamed, every generated glyph is run through `refmodel::type2` (my own
+//! interpreter): if *that* does not give the model path back, the case is a HARNESS-ERROR.
+//!
+//! Failures that match the input class of a specific, separately reported defect carry that
+//! defect's signature (`C18:cff2-local-subrs-from-fd0`, `C18:seac-component-width`, ...) and
+//! are deferred so that they never mask a different violation in the same font; all of them
+//! are repaired in /repo by now, so the signatures only reappear if a repair regresses.
+
+use crate::engine::{fixtures, CaseResult, Ctx, Fail, Property, Rec};
+use crate::fontgen::cff::{
+    build_cff, build_cff2, build_otf, Cff2Model, CffKind, CffModel, CharsetModel, PrivateModel, VarStoreModel,
+};
+use crate::fontgen::sfnt::find_table;
+use crate::fontgen::type2::{
+    self as t2, apply_blends, diff_commands, factor, gen_frag_chunks, gen_glyph_plan, op, serialize, subr_bias, Cmd, Dec,
+    EncOpts, EncStats, Encoder, FactorOpts, Frag, Grid, NumForm, PathModel, PathOpts, Seg, SubrLayout, Tok, ONE,
+};
+use crate::fontgen::var::{fvar_table, AxisModel};
+use crate::refmodel::type2::{region_scalar, Deviations, T2Font};
+use allsorts::binary::read::ReadScope;
+use allsorts::cff::cff2::CFF2;
+use allsorts::cff::outline::CFF2Outlines;
+use allsorts::cff::CFF;
+use allsorts::outline::{OutlineBuilder, OutlineSink};
+use allsorts::pathfinder_geometry::line_segment::LineSegment2F;
+use allsorts::pathfinder_geometry::vector::Vector2F;
+use allsorts::tables::variable_fonts::fvar::FvarTable;
+use allsorts::tables::variable_fonts::OwnedTuple;
+use allsorts::tables::F2Dot14;
+use proptest::prelude::*;
+use std::panic::{catch_unwind, resume_unwind, AssertUnwindSafe};
 
 pub struct C18;
+
+// ------------------------------------------------------------------------------------------
+// recording sink
+
+#[derive(Default)]
+struct Sink {
+    cmds: Vec<Cmd>,
+    quads: usize,
+}
+
+impl OutlineSink for Sink {
+    fn move_to(&mut self, to: Vector2F) {
+        self.cmds.push(Cmd::Move(to.x() as f64, to.y() as f64));
+    }
+    fn line_to(&mut self, to: Vector2F) {
+        self.cmds.push(Cmd::Line(to.x() as f64, to.y() as f64));
+    }
+    fn quadratic_curve_to(&mut self, _ctrl: Vector2F, to: Vector2F) {
+        self.quads += 1;
+        self.cmds.push(Cmd::Line(to.x() as f64, to.y() as f64));
+    }
+    fn cubic_curve_to(&mut self, ctrl: LineSegment2F, to: Vector2F) {
+        self.cmds.push(Cmd::Curve(
+            ctrl.from_x() as f64,
+            ctrl.from_y() as f64,
+            ctrl.to_x() as f64,
+            ctrl.to_y() as f64,
+            to.x() as f64,
+            to.y() as f64,
+        ));
+    }
+    fn close(&mut self) {
+        self.cmds.push(Cmd::Close);
+    }
+}
+
+// ------------------------------------------------------------------------------------------
+// generated case
+
+#[derive(Clone, Copy, Debug, PartialEq)]
+pub enum Kind {
+    NameKeyed,
+    Cid,
+    Cff2,
+}
+
+impl Kind {
+    fn tag(self) -> &'static str {
+        match self {
+            Kind::NameKeyed => "cff",
+            Kind::Cid => "cid",
+            Kind::Cff2 => "cff2",
+        }
+    }
+}
+
+#[derive(Clone, Debug)]
+pub struct Case {
+    pub kind: Kind,
+    pub seed: u64,
+    pub nglyphs: usize,
+    /// 0 integers ±30000, 1 multiples of 1/256 ±16000, 2 any 16.16 ±120, 3 integers ±2000
+    pub grid: u8,
+    pub hints: bool,
+    pub width: bool,
+    pub free_forms: bool,
+    /// shared path fragments (stack-neutral subroutines)
+    pub nfrags: usize,
+    /// ad-hoc cuts of arbitrary token ranges into subroutines, per glyph
+    pub cuts: usize,
+    /// nest the cuts as deep as the limit allows
+    pub deep: bool,
+    pub max_segs: usize,
+    /// 0: INDEXes hold just the subroutines; 1..=4: one INDEX padded to 1238/1239/1240/1241;
+    /// 5..=8: to 33898/33899/33900/33901
+    pub pad: u8,
+    pub nfd: usize,
+    /// CFF2: VariationStore present, blends used
+    pub variable: bool,
+    pub axes: usize,
+    pub block_order: u8,
+    pub off_size: u8,
+    pub header_extra: u8,
+    /// parse through an OTTO sfnt and the table provider instead of the bare table
+    pub via_sfnt: bool,
+}
+
+fn case_strategy(kind: Kind) -> impl Strategy<Value = Case> {
+    let a = (
+        any::<u64>(),
+        prop_oneof![3 => 1usize..=3, 2 => 4usize..=8],
+        prop_oneof![3 => Just(0u8), 2 => Just(1u8), 1 => Just(2u8), 2 => Just(3u8)],
+        proptest::bool::weighted(0.6),
+        proptest::bool::weighted(0.5),
+        proptest::bool::weighted(0.6),
+        prop_oneof![2 => Just(0usize), 3 => 1usize..=5],
+        prop_oneof![2 => Just(0usize), 3 => 1usize..=4],
+        proptest::bool::weighted(0.08),
+        prop_oneof![3 => 1usize..=8, 2 => 9usize..=30],
+    );
+    let b = (
+        prop_oneof![80 => Just(0u8), 16 => 1u8..=4, 1 => 5u8..=8],
+        1usize..=3,
+        proptest::bool::weighted(0.6),
+        1usize..=3,
+        any::<u8>(),
+        prop_oneof![3 => Just(1u8), 1 => 2u8..=4],
+        prop_oneof![3 => Just(0u8), 1 => 1u8..=3],
+        proptest::bool::weighted(0.1),
+    );
+    (a, b).prop_map(
+        move |(
+            (seed, nglyphs, grid, hints, width, free_forms, nfrags, cuts, deep, max_segs),
+            (pad, nfd, variable, axes, block_order, off_size, header_extra, via_sfnt),
+        )| {
+            let nfd = match kind {
+                Kind::NameKeyed => 1,
+                Kind::Cid => nfd.max(2).min(3),
+                Kind::Cff2 => nfd,
+            };
+            Case {
+                kind,
+                seed,
+                nglyphs,
+                grid,
+                hints,
+                width: width && kind != Kind::Cff2,
+                free_forms,
+                nfrags,
+                cuts,
+                deep,
+                max_segs,
+                pad,
+                nfd,
+                variable: variable && kind == Kind::Cff2,
+                axes,
+                block_order,
+                off_size,
+                header_extra,
+                via_sfnt,
+            }
+        },
+    )
+}
+
+// ------------------------------------------------------------------------------------------
+// building a font from a case
+
+struct SubrTab {
+    toks: Vec<Vec<Tok>>,
+    depth: Vec<u32>,
+    /// font dict whose local subroutines a body refers to (matters for global bodies that
+    /// contain local calls: they belong to one glyph)
+    ctx_fd: Vec<usize>,
+}
+
+impl SubrTab {
+    fn new() -> SubrTab {
+        SubrTab { toks: Vec::new(), depth: Vec::new(), ctx_fd: Vec::new() }
+    }
+    fn push(&mut self, t: Vec<Tok>, depth: u32, fd: usize) -> usize {
+        self.toks.push(t);
+        self.depth.push(depth);
+        self.ctx_fd.push(fd);
+        self.toks.len() - 1
+    }
+}
+
+pub struct GlyphInfo {
+    pub model: PathModel,
+    pub stats: EncStats,
+    pub fd: usize,
+    pub vsindex: usize,
+    /// numeric operands in the flattened program (for the rounding-error bound)
+    pub nops: usize,
+    /// nesting depth of subroutine calls
+    pub depth: u32,
+    /// CFF2: an hvcurveto/vhcurveto with more than 48 operands is used
+    pub hv_over_48: bool,
+    /// CFF2, font dict != 0: the glyph executes local subroutines, or blends under its font
+    /// dict's default vsindex which differs from that of font dict 0 (input class of the known
+    /// finding "local subroutines / vsindex taken from font dict 0")
+    pub fd0_sensitive: bool,
+    pub blends: usize,
+}
+
+pub struct Built {
+    pub kind: Kind,
+    pub table: Vec<u8>,
+    pub glyphs: Vec<GlyphInfo>,
+    pub vstore: Option<VarStoreModel>,
+    /// raw F2Dot14 coordinates of the instance used for the variable visit
+    pub tuple: Vec<i16>,
+    pub classes: Vec<String>,
+    pub max_abs: f64,
+    /// compact rendering of every glyph's token list (debugging aid, VERIF_C18_DUMP=1)
+    pub dump: Vec<String>,
+}
+
+fn grid_of(c: &Case) -> Grid {
+    if c.variable {
+        return Grid::SMALL;
+    }
+    match c.grid {
+        0 => Grid::INT,
+        1 => Grid::F8,
+        2 => Grid::F16,
+        _ => Grid::SMALL,
+    }
+}
+
+fn pad_size(pad: u8) -> Option<usize> {
+    match pad {
+        1 => Some(1238),
+        2 => Some(1239),
+        3 => Some(1240),
+        4 => Some(1241),
+        5 => Some(33898),
+        6 => Some(33899),
+        7 => Some(33900),
+        8 => Some(33901),
+        _ => None,
+    }
+}
+
+fn gen_vstore(dec: &mut Dec, axes: usize) -> (VarStoreModel, Vec<i16>) {
+    let nreg = 1 + dec.below(4);
+    let mut regions = Vec::new();
+    let mut interesting: Vec<i16> = vec![0, 16384, -16384, 1, -1, 8192, -8192];
+    for _ in 0..nreg {
+        let mut r = Vec::new();
+        for _ in 0..axes {
+            // well-formed: start <= peak <= end, no zero crossing unless peak == 0
+            let t = match dec.below(7) {
+                0 => [0, 0, 0],
+                1 => [-16384, 0, 16384],
+                2 => [0, 16384, 16384],
+                3 => [-16384, -16384, 0],
+                4 => {
+                    let p = dec.range(1, 16384) as i16;
+                    let s = dec.range(0, p as i32) as i16;
+                    let e = dec.range(p as i32, 16384) as i16;
+                    [s, p, e]
+                }
+                5 => {
+                    let p = -(dec.range(1, 16384) as i16);
+                    let s = dec.range(-16384, p as i32) as i16;
+                    let e = dec.range(p as i32, 0) as i16;
+                    [s, p, e]
+                }
+                _ => [0, 8192, 16384],
+            };
+            interesting.extend_from_slice(&t);
+            r.push(t);
+        }
+        regions.push(r);
+    }
+    let ndata = 1 + dec.below(3);
+    let mut data = Vec::new();
+    for _ in 0..ndata {
+        let k = 1 + dec.below(3);
+        data.push((0..k).map(|_| dec.below(nreg) as u16).collect());
+    }
+    let tuple: Vec<i16> = (0..axes)
+        .map(|_| {
+            if dec.chance(1, 2) {
+                interesting[dec.below(interesting.len())]
+            } else {
+                dec.range(-16384, 16384) as i16
+            }
+        })
+        .collect();
+    (VarStoreModel { axis_count: axes as u16, regions, data }, tuple)
+}
+
+fn count_nums(toks: &[Tok]) -> usize {
+    toks.iter().filter(|t| matches!(t, Tok::Num { .. } | Tok::Call { .. })).count()
+}
+
+/// hv/vh operators of a token list whose operand count exceeds 48 (counted on the flat list:
+/// operands directly preceding the operator, blends already applied do not matter because
+/// variable glyphs never reach that many operands)
+fn has_hv_over_48(toks: &[Tok]) -> bool {
+    let mut n = 0usize;
+    for t in toks {
+        match t {
+            Tok::Num { .. } => n += 1,
+            Tok::Op(o) => {
+                if (*o == op::HVCURVETO || *o == op::VHCURVETO) && n > 48 {
+                    return true;
+                }
+                if *o != op::BLEND {
+                    n = 0;
+                }
+            }
+            Tok::Mask { .. } => n = 0,
+            Tok::Call { .. } => {}
+        }
+    }
+    false
+}
+
+pub fn build(c: &Case) -> Built {
+    let mut dec = Dec::new(c.seed);
+    let grid = grid_of(c);
+    let cff2 = c.kind == Kind::Cff2;
+    let nfd = c.nfd.max(1);
+    let nglyphs = c.nglyphs.max(1);
+    let mut classes: Vec<String> = Vec::new();
+
+    let fd_select: Vec<u8> = (0..nglyphs).map(|g| if nfd == 1 { 0 } else if g < nfd { g as u8 } else { dec.below(nfd) as u8 }).collect();
+
+    // variation data
+    let (vstore, tuple) = if c.variable {
+        let (v, t) = gen_vstore(&mut dec, c.axes.max(1));
+        (Some(v), t)
+    } else {
+        (None, Vec::new())
+    };
+    let fd_vsindex: Vec<Option<u16>> = (0..nfd)
+        .map(|_| match &vstore {
+            Some(v) if dec.chance(2, 3) => Some(dec.below(v.data.len()) as u16),
+            _ => None,
+        })
+        .collect();
+
+    let mut globals = SubrTab::new();
+    let mut locals: Vec<SubrTab> = (0..nfd).map(|_| SubrTab::new()).collect();
+
+    let scale = match dec.below(4) {
+        0 => 20,
+        1 => 150,
+        2 => 1200,
+        _ => 32767,
+    }
+    .min(grid.bound);
+
+    // ---- shared fragments
+    let mut frags: Vec<Frag> = Vec::new();
+    let frag_opts = EncOpts {
+        cff2,
+        free_number_forms: c.free_forms,
+        hints: false,
+        width: None,
+        regions: 0,
+        vsindex: None,
+        blend_permille: 0,
+        delta_scale: 0,
+        inexact: c.variable,
+    };
+    for _ in 0..c.nfrags {
+        let global = dec.chance(1, 2);
+        let fd = dec.below(nfd);
+        let usable = |i: usize| -> bool {
+            let f: &Frag = &frags[i];
+            f.depth < 3 && (f.global || (!global && f.fd == fd))
+        };
+        let (chunks, flat) = gen_frag_chunks(&mut dec, grid, scale, &frags, &usable);
+        let mut e = Encoder::new(&frag_opts);
+        e.fragment(&mut dec, &chunks, &frags);
+        let depth = 1 + chunks
+            .iter()
+            .map(|ch| match ch {
+                t2::Chunk::Frag(i) => frags[*i].depth,
+                _ => 0,
+            })
+            .max()
+            .unwrap_or(0);
+        let id = if global { globals.push(e.toks, depth, 0) } else { locals[fd].push(e.toks, depth, fd) };
+        let f = Frag::new(chunks, flat, &frags, global, fd, (global, id));
+        frags.push(f);
+    }
+
+    // ---- glyphs
+    let mut glyph_toks: Vec<Vec<Tok>> = Vec::new();
+    let mut infos: Vec<GlyphInfo> = Vec::new();
+    for g in 0..nglyphs {
+        let fd = fd_select[g] as usize;
+        let mut gd = dec.fork();
+        let usable = |i: usize| -> bool { frags[i].global || frags[i].fd == fd };
+        let po = PathOpts {
+            grid,
+            max_contours: if c.variable { 3 } else { 4 },
+            max_segs: if c.variable { c.max_segs.min(12) } else { c.max_segs },
+            scale,
+            long_runs: !c.variable,
+        };
+        let plan = gen_glyph_plan(&mut gd, &po, &frags, &usable);
+        // vsindex: font dict default or an explicit operator
+        let (vsindex_op, vsindex) = match &vstore {
+            Some(v) => {
+                let dflt = fd_vsindex[fd].unwrap_or(0) as usize;
+                if gd.chance(1, 3) {
+                    let x = gd.below(v.data.len());
+                    (Some(x as u16), x)
+                } else {
+                    (None, dflt)
+                }
+            }
+            None => (None, 0),
+        };
+        let regions = vstore.as_ref().map(|v| v.data[vsindex].len()).unwrap_or(0);
+        let eo = EncOpts {
+            cff2,
+            free_number_forms: c.free_forms,
+            hints: c.hints && gd.chance(3, 4),
+            width: if c.width && gd.chance(2, 3) {
+                Some(match gd.below(4) {
+                    0 => gd.range(-32768, 32767) * ONE,
+                    1 => gd.range(-500, 1500) * ONE + gd.below(65536) as i32,
+                    _ => gd.range(0, 1200) * ONE,
+                })
+            } else {
+                None
+            },
+            regions,
+            vsindex: vsindex_op,
+            blend_permille: if regions > 0 { [0, 150, 500, 1000][gd.below(4)] } else { 0 },
+            delta_scale: 12,
+            inexact: regions > 0,
+        };
+        let mut e = Encoder::new(&eo);
+        e.glyph(&mut gd, &plan, &frags);
+        let mut stats = e.stats.clone();
+        let (toks, deltas) = apply_blends(&mut gd, e.toks, &eo, &mut stats);
+        let mut model = plan.model(&frags);
+        model.deltas = deltas;
+        let hv_over_48 = cff2 && has_hv_over_48(&toks);
+        // ad-hoc subroutine cuts
+        let call_depth = |global: bool, id: usize| -> u32 {
+            if global {
+                globals.depth[id]
+            } else {
+                locals[fd].depth[id]
+            }
+        };
+        let mut new_bodies: Vec<(bool, Vec<Tok>, u32)> = Vec::new();
+        let base_g = globals.toks.len();
+        let base_l = locals[fd].toks.len();
+        let (toks, depth) = {
+            let mut ng = 0usize;
+            let mut nl = 0usize;
+            let mut new_subr = |body: Vec<Tok>, d: u32, dd: &mut Dec| -> (bool, usize) {
+                let global = dd.chance(1, 2);
+                let id = if global {
+                    ng += 1;
+                    base_g + ng - 1
+                } else {
+                    nl += 1;
+                    base_l + nl - 1
+                };
+                new_bodies.push((global, body, d));
+                (global, id)
+            };
+            // depth of subroutines created in this very call
+            let fo = FactorOpts { cff2, regions, max_depth: 10, call_depth: &call_depth, deep: c.deep };
+            if c.cuts > 0 {
+                factor(&mut gd, toks, &fo, &mut new_subr, c.cuts)
+            } else {
+                let d = toks
+                    .iter()
+                    .map(|t| match t {
+                        Tok::Call { global, id, .. } => call_depth(*global, *id),
+                        _ => 0,
+                    })
+                    .max()
+                    .unwrap_or(0);
+                (toks, d)
+            }
+        };
+        for (global, body, d) in new_bodies {
+            if global {
+                globals.push(body, d, fd);
+            } else {
+                locals[fd].push(body, d, fd);
+            }
+        }
+        let nops = count_nums(&toks)
+            + globals.toks.iter().map(|t| count_nums(t)).sum::<usize>()
+            + locals[fd].toks.iter().map(|t| count_nums(t)).sum::<usize>();
+        let fd0_sensitive = cff2 && fd != 0 && stats.blends > 0 && vsindex_op.is_none() && fd_vsindex[fd].unwrap_or(0) != fd_vsindex[0].unwrap_or(0);
+        infos.push(GlyphInfo { model, blends: stats.blends, stats, fd, vsindex, nops, depth, hv_over_48, fd0_sensitive });
+        glyph_toks.push(toks);
+    }
+
+    // does a glyph's call tree reach a local subroutine?
+    fn uses_local(toks: &[Tok], globals: &SubrTab, seen: &mut Vec<usize>) -> bool {
+        toks.iter().any(|t| match t {
+            Tok::Call { global: false, .. } => true,
+            Tok::Call { global: true, id, .. } => {
+                if seen.contains(id) {
+                    false
+                } else {
+                    seen.push(*id);
+                    uses_local(&globals.toks[*id], globals, seen)
+                }
+            }
+            _ => false,
+        })
+    }
+    for (g, gi) in infos.iter_mut().enumerate() {
+        if cff2 && gi.fd != 0 && uses_local(&glyph_toks[g], &globals, &mut Vec::new()) {
+            gi.fd0_sensitive = true;
+        }
+    }
+
+    // ---- INDEX layouts (one table may be padded to a bias boundary)
+    let padded_table = dec.below(nfd + 1); // 0 = global, i+1 = local of fd i
+    let layout_for = |dec: &mut Dec, which: usize, n: usize| -> SubrLayout {
+        let size = match pad_size(c.pad) {
+            Some(s) if which == padded_table => s.max(n),
+            _ => n + if dec.chance(1, 4) { dec.below(6) } else { 0 },
+        };
+        SubrLayout::new(dec, n, size)
+    };
+    let glayout = layout_for(&mut dec, 0, globals.toks.len());
+    let llayouts: Vec<SubrLayout> = (0..nfd).map(|i| layout_for(&mut dec, i + 1, locals[i].toks.len())).collect();
+    for (l, n) in std::iter::once((&glayout, globals.toks.len())).chain(llayouts.iter().zip(locals.iter().map(|l| l.toks.len()))) {
+        if n > 0 {
+            classes.push(format!("bias:{}", subr_bias(l.size)));
+            if l.size == 1239 || l.size == 1240 || l.size == 33899 || l.size == 33900 {
+                classes.push(format!("index-size:{}", l.size));
+            }
+        }
+    }
+
+    // ---- serialise
+    let filler: Vec<u8> = if cff2 { Vec::new() } else { vec![op::RETURN as u8] };
+    let ser = |toks: &[Tok], fd: usize| -> Vec<u8> {
+        serialize(toks, &|global, id| if global { glayout.number(id) } else { llayouts[fd].number(id) })
+    };
+    let gbodies: Vec<Vec<u8>> = globals.toks.iter().zip(&globals.ctx_fd).map(|(t, fd)| ser(t, *fd)).collect();
+    let global_subrs = glayout.entries(&gbodies, &filler);
+    let mut privates: Vec<PrivateModel> = Vec::new();
+    for i in 0..nfd {
+        let bodies: Vec<Vec<u8>> = locals[i].toks.iter().map(|t| ser(t, i)).collect();
+        let entries = llayouts[i].entries(&bodies, &filler);
+        privates.push(PrivateModel {
+            default_width_x: if dec.chance(1, 2) { Some(dec.range(0, 1000)) } else { None },
+            nominal_width_x: if dec.chance(1, 2) { Some(dec.range(0, 1000)) } else { None },
+            with_hint_entries: dec.chance(1, 3),
+            subrs: if entries.is_empty() && dec.chance(1, 2) { None } else { Some(entries) },
+            subrs_gap: if dec.chance(1, 4) { dec.below(9) } else { 0 },
+            vsindex: fd_vsindex[i],
+        });
+    }
+    let charstrings: Vec<Vec<u8>> = glyph_toks.iter().enumerate().map(|(g, t)| ser(t, fd_select[g] as usize)).collect();
+
+    let table = match c.kind {
+        Kind::NameKeyed => build_cff(&CffModel {
+            name: b"VerifC18".to_vec(),
+            strings: Vec::new(),
+            global_subrs,
+            charstrings,
+            charset: match dec.below(3) {
+                0 => CharsetModel::IsoAdobe,
+                1 => CharsetModel::Format0((1..nglyphs as u16).collect()),
+                _ => CharsetModel::Format1((1..nglyphs as u16).collect()),
+            },
+            kind: CffKind::NameKeyed { private: privates.remove(0) },
+            header_extra: c.header_extra,
+            min_off_size: c.off_size,
+            block_order: c.block_order,
+            font_bbox: if dec.chance(1, 2) { Some([-1000, -1000, 3000, 3000]) } else { None },
+        }),
+        Kind::Cid => build_cff(&CffModel {
+            name: b"VerifC18-CID".to_vec(),
+            strings: Vec::new(),
+            global_subrs,
+            charstrings,
+            charset: CharsetModel::Format2((1..nglyphs as u16).collect()),
+            kind: CffKind::Cid { fds: privates, fd_select: fd_select.clone(), fd_select_format: if dec.chance(1, 2) { 0 } else { 3 } },
+            header_extra: c.header_extra,
+            min_off_size: c.off_size,
+            block_order: c.block_order,
+            font_bbox: None,
+        }),
+        Kind::Cff2 => build_cff2(&Cff2Model {
+            global_subrs,
+            charstrings,
+            fds: privates,
+            fd_select: if nfd > 1 || dec.chance(1, 4) { Some((if dec.chance(1, 2) { 0 } else { 3 }, fd_select.clone())) } else { None },
+            vstore: vstore.clone(),
+            header_extra: c.header_extra,
+            min_off_size: c.off_size,
+            block_order: c.block_order,
+            font_matrix: dec.chance(1, 3),
+        }),
+    };
+    let dump = if std::env::var("VERIF_C18_DUMP").is_ok() {
+        let show = |toks: &[Tok]| -> String {
+            toks.iter()
+                .map(|t| match t {
+                    Tok::Num { v, var, .. } => format!("{}{}", *v as f64 / 65536.0, if var.is_some() { "~" } else { "" }),
+                    Tok::Op(o) => format!("op{}", if *o >= 0x0c00 { format!("12.{}", o & 0xff) } else { o.to_string() }),
+                    Tok::Mask { cntr, bytes } => format!("{}[{}]", if *cntr { "cntrmask" } else { "hintmask" }, hex::encode(bytes)),
+                    Tok::Call { global, id, .. } => format!("call{}#{}", if *global { "G" } else { "L" }, id),
+                })
+                .collect::<Vec<_>>()
+                .join(" ")
+        };
+        let mut d: Vec<String> = glyph_toks.iter().enumerate().map(|(g, t)| format!("glyph {} fd {}: {}", g, fd_select[g], show(t))).collect();
+        for (i, t) in globals.toks.iter().enumerate() {
+            d.push(format!("gsubr #{} at {}: {}", i, glayout.pos[i], show(t)));
+        }
+        for (f, l) in locals.iter().enumerate() {
+            for (i, t) in l.toks.iter().enumerate() {
+                d.push(format!("lsubr fd {} #{} at {}: {}", f, i, llayouts[f].pos[i], show(t)));
+            }
+        }
+        d.push(format!("vstore {:?} tuple {:?} fd_vsindex {:?}", vstore, tuple, fd_vsindex));
+        d
+    } else {
+        Vec::new()
+    };
+    Built { kind: c.kind, table, glyphs: infos, vstore, tuple, classes, max_abs: grid.bound as f64, dump }
+}
+
+// ------------------------------------------------------------------------------------------
+// running allsorts
+
+enum Parsed<'a> {
+    Cff(CFF<'a>),
+    Cff2(CFF2<'a>),
+}
+
+fn parse_table<'a>(kind_cff2: bool, table: &'a [u8], tag: &str) -> Result<Parsed<'a>, Fail> {
+    if kind_cff2 {
+        ReadScope::new(table)
+            .read::<CFF2<'_>>()
+            .map(Parsed::Cff2)
+            .map_err(|e| Fail::new(format!("C18:{}:table-rejected", tag), format!("CFF2::read failed on a well-formed table: {:?}", e)))
+    } else {
+        ReadScope::new(table)
+            .read::<CFF<'_>>()
+            .map(Parsed::Cff)
+            .map_err(|e| Fail::new(format!("C18:{}:table-rejected", tag), format!("CFF::read failed on a well-formed table: {:?}", e)))
+    }
+}
+
+fn visit(p: &mut Parsed<'_>, gid: u16, tuple: Option<&OwnedTuple>) -> (Result<(), String>, Sink) {
+    let mut sink = Sink::default();
+    let r = match p {
+        Parsed::Cff(c) => c.visit(gid, &mut sink).map_err(|e| format!("{:?}", e)),
+        Parsed::Cff2(c) => CFF2Outlines { table: c, tuple }.visit(gid, &mut sink).map_err(|e| format!("{:?}", e)),
+    };
+    (r, sink)
+}
+
+fn owned_tuple(raw: &[i16]) -> Result<OwnedTuple, Fail> {
+    let axes: Vec<AxisModel> = raw
+        .iter()
+        .enumerate()
+        .map(|(i, _)| AxisModel { tag: [b'A', b'X', b'0', b'0' + i as u8], min: -ONE, default: 0, max: ONE, flags: 0, name_id: 256 + i as u16 })
+        .collect();
+    let bytes = fvar_table(&axes, &[], 0);
+    // the fvar table is only the vehicle allsorts requires for constructing an OwnedTuple
+    let fvar = ReadScope::new(&bytes).read::<FvarTable<'_>>().map_err(|e| Fail::new("C18:harness-fvar", format!("{:?}", e)))?;
+    let vals: Vec<F2Dot14> = raw.iter().map(|v| F2Dot14::from_raw(*v)).collect();
+    fvar.owned_tuple(&vals).ok_or_else(|| Fail::new("C18:harness-fvar", "owned_tuple refused".to_string()))
+}
+
+fn render(cmds: &[Cmd]) -> String {
+    let mut s = String::new();
+    for c in cmds.iter().take(40) {
+        match c {
+            Cmd::Move(x, y) => s.push_str(&format!("M {} {} ", x, y)),
+            Cmd::Line(x, y) => s.push_str(&format!("L {} {} ", x, y)),
+            Cmd::Curve(a, b, c2, d, e, f) => s.push_str(&format!("C {} {} {} {} {} {} ", a, b, c2, d, e, f)),
+            Cmd::Close => s.push_str("Z "),
+        }
+    }
+    if cmds.len() > 40 {
+        s.push_str("…");
+    }
+    s
+}
+
+fn max_coord(cmds: &[Cmd]) -> f64 {
+    let mut m = 0f64;
+    for c in cmds {
+        match c {
+            Cmd::Move(x, y) | Cmd::Line(x, y) => m = m.max(x.abs()).max(y.abs()),
+            Cmd::Curve(a, b, c2, d, e, f) => {
+                for v in [a, b, c2, d, e, f] {
+                    m = m.max(v.abs());
+                }
+            }
+            Cmd::Close => {}
+        }
+    }
+    m
+}
+
+fn same_structure(a: &[Cmd], b: &[Cmd]) -> bool {
+    a.len() == b.len() && a.iter().zip(b).all(|(x, y)| std::mem::discriminant(x) == std::mem::discriminant(y))
+}
+
+/// Failure bookkeeping: an unattributed failure is returned at once; failures attributed to a
+/// specific known defect are remembered and returned at the end, so that they never mask a
+/// different violation in the same font.
+#[derive(Default)]
+struct Deferred(Option<Fail>);
+
+impl Deferred {
+    fn defer(&mut self, f: Fail) {
+        if self.0.is_none() {
+            self.0 = Some(f);
+        }
+    }
+    fn finish(self) -> CaseResult {
+        match self.0 {
+            Some(f) => Err(f),
+            None => Ok(()),
+        }
+    }
+}
+
+/// Compare what allsorts delivered for one glyph with the expected commands.
+#[allow(clippy::too_many_arguments)]
+fn judge(
+    tag: &str,
+    what: &str,
+    res: &Result<(), String>,
+    sink: &Sink,
+    want: &[Cmd],
+    tol: f64,
+    deferred: &mut Deferred,
+    defect_alt: Option<&(Result<Vec<Cmd>, String>, bool)>,
+) -> CaseResult {
+    // Defect model for the known CFF2 finding (local subroutines / default vsindex taken from
+    // font dict 0): `defect_alt` is what the reference interpreter delivers with that deviation
+    // switched on, plus whether the glyph is structurally in the finding's input class (it
+    // belongs to another font dict and executes local subroutines or blends under a different
+    // default vsindex). A failure is attributed to the finding if the deviating reference
+    // itself departs from the specified result (or gives up) — allsorts then ran a foreign
+    // program and what comes out is arbitrary (which error is detected where differs between
+    // interpreters: f32 vs f64, bounding box, operand validation, width heuristics) — or if the
+    // glyph is structurally in the class and allsorts gave up.
+    let attributed = |got_err: Option<&String>| -> bool {
+        match defect_alt {
+            Some((Ok(alt), structural)) => diff_commands(alt, want, tol).is_some() || (*structural && got_err.is_some()),
+            Some((Err(_), _)) => true,
+            None => false,
+        }
+    };
+    let exact = |alt: &Vec<Cmd>| diff_commands(&sink.cmds, alt, tol).is_none() || (alt.is_empty() && sink.cmds == [Cmd::Close]);
+    if let Err(e) = res {
+        if attributed(Some(e)) {
+            deferred.defer(Fail::new(
+                "C18:cff2-local-subrs-from-fd0",
+                format!("{}: allsorts fails with {} where local subroutines / default vsindex are taken from font dict 0 instead of the glyph's font dict; expected {}", what, e, render(want)),
+            ));
+            return Ok(());
+        }
+        return Err(Fail::new(format!("C18:{}:visit-error", tag), format!("{}: visit failed with {} on a well-formed charstring; expected {}", what, e, render(want))));
+    }
+    if sink.quads > 0 {
+        return Err(Fail::new(format!("C18:{}:quadratic", tag), format!("{}: quadratic_curve_to called for a CFF outline", what)));
+    }
+    if let Some(d) = diff_commands(&sink.cmds, want, tol) {
+        if tag == "cff2" && want.is_empty() && sink.cmds == [Cmd::Close] {
+            deferred.defer(Fail::new(
+                "C18:cff2-close-without-contour",
+                format!("{}: a CFF2 charstring without any moveto delivers a lone close() (no contour was opened)", what),
+            ));
+            return Ok(());
+        }
+        if attributed(None) {
+            deferred.defer(Fail::new(
+                "C18:cff2-local-subrs-from-fd0",
+                format!(
+                    "{}: allsorts delivers {} what an interpreter taking local subroutines / default vsindex from font dict 0 delivers: {} — expected {}",
+                    what,
+                    match defect_alt {
+                        Some((Ok(alt), _)) if exact(alt) => "exactly",
+                        _ => "a different result of the same foreign program than",
+                    },
+                    render(&sink.cmds),
+                    render(want)
+                ),
+            ));
+            return Ok(());
+        }
+        let kind = if same_structure(&sink.cmds, want) { "path-coordinates" } else { "path-structure" };
+        return Err(Fail::new(
+            format!("C18:{}:{}", tag, kind),
+            format!("{}: {} (tolerance {:.4}); got {} — expected {}", what, d, tol, render(&sink.cmds), render(want)),
+        ));
+    }
+    Ok(())
+}
+
+fn scalars_for(vs: &VarStoreModel, vsindex: usize, tuple: &[i16]) -> Vec<f64> {
+    let coords: Vec<f64> = tuple.iter().map(|v| *v as f64 / 16384.0).collect();
+    vs.data[vsindex]
+        .iter()
+        .map(|r| {
+            let reg: Vec<(f64, f64, f64)> =
+                vs.regions[*r as usize].iter().map(|t| (t[0] as f64 / 16384.0, t[1] as f64 / 16384.0, t[2] as f64 / 16384.0)).collect();
+            region_scalar(&reg, &coords)
+        })
+        .collect()
+}
+
+/// Visit with a panic net for the one known panic class (CFF2 hv/vhcurveto with more than 48
+/// operands); any other panic propagates to the engine unchanged.
+fn visit_guarded(p: &mut Parsed<'_>, gid: u16, tuple: Option<&OwnedTuple>, known_panic_class: bool) -> Result<(Result<(), String>, Sink), ()> {
+    if !known_panic_class {
+        return Ok(visit(p, gid, tuple));
+    }
+    match catch_unwind(AssertUnwindSafe(|| visit(p, gid, tuple))) {
+        Ok(r) => Ok(r),
+        Err(payload) => {
+            let msg = payload
+                .downcast_ref::<String>()
+                .cloned()
+                .or_else(|| payload.downcast_ref::<&str>().map(|s| s.to_string()))
+                .unwrap_or_default();
+            if msg.contains("out of range for slice of length 48") || msg.contains("range end index") {
+                Err(())
+            } else {
+                resume_unwind(payload)
+            }
+        }
+    }
+}
+
+pub fn check_built(b: &Built, via_sfnt: bool, rec: &mut Rec) -> CaseResult {
+    let tag = b.kind.tag();
+    let cff2 = b.kind == Kind::Cff2;
+    rec.artefact("table", &b.table);
+    rec.hash_bytes(&b.table);
+
+    // ---- self-check with my own reader + interpreter (a disagreement is a harness bug)
+    let mine = if cff2 { T2Font::parse_cff2(&b.table) } else { T2Font::parse_cff(&b.table) };
+    let mine = match mine {
+        Ok(m) => m,
+        Err(e) => panic!("harness self-check: refmodel cannot parse the generated {} table: {}", tag, e),
+    };
+    let coords: Vec<f64> = b.tuple.iter().map(|v| *v as f64 / 16384.0).collect();
+    let mut wants: Vec<Vec<Cmd>> = Vec::new();
+    for (g, gi) in b.glyphs.iter().enumerate() {
+        let sc = b.vstore.as_ref().map(|v| scalars_for(v, gi.vsindex, &b.tuple));
+        let want = gi.model.commands(sc.as_deref());
+        let got = mine.outline(g, if b.vstore.is_some() { Some(&coords) } else { None }, &Deviations::default());
+        match got {
+            Ok(cmds) => {
+                if let Some(d) = diff_commands(&cmds, &want, 1e-6) {
+                    panic!("harness self-check: glyph {} of generated {} font: my interpreter disagrees with the model: {}", g, tag, d);
+                }
+            }
+            Err(e) => panic!(
+                "harness self-check: glyph {} of generated {} font: my interpreter fails: {}; charstring {}; gsubrs {:?}; lsubrs {:?}",
+                g,
+                tag,
+                e,
+                hex::encode(mine.charstrings[g]),
+                mine.gsubrs.iter().map(|s| hex::encode(s)).collect::<Vec<_>>(),
+                mine.fds[mine.fd_of(g)].lsubrs.iter().map(|s| hex::encode(s)).collect::<Vec<_>>()
+            ),
+        }
+        wants.push(want);
+    }
+
+    // ---- allsorts
+    let otf;
+    let table_cow;
+    let table: &[u8] = if via_sfnt {
+        otf = build_otf(b.table.clone(), cff2, b.glyphs.len() as u16, &[]);
+        let fd = ReadScope::new(&otf)
+            .read::<allsorts::font_data::FontData<'_>>()
+            .map_err(|e| Fail::new(format!("C18:{}:sfnt-rejected", tag), format!("{:?}", e)))?;
+        let prov = fd.table_provider(0).map_err(|e| Fail::new(format!("C18:{}:sfnt-rejected", tag), format!("{:?}", e)))?;
+        use allsorts::tables::FontTableProvider;
+        table_cow = prov
+            .read_table_data(if cff2 { allsorts::tag::CFF2 } else { allsorts::tag::CFF })
+            .map_err(|e| Fail::new(format!("C18:{}:sfnt-rejected", tag), format!("{:?}", e)))?
+            .into_owned();
+        if table_cow != b.table {
+            return Err(Fail::new(format!("C18:{}:sfnt-table-differs", tag), "table provider returned different CFF bytes".to_string()));
+        }
+        &table_cow
+    } else {
+        &b.table
+    };
+    let mut parsed = parse_table(cff2, table, tag)?;
+    let tuple = if b.vstore.is_some() { Some(owned_tuple(&b.tuple)?) } else { None };
+    let mut deferred = Deferred::default();
+    for (g, gi) in b.glyphs.iter().enumerate() {
+        let want = &wants[g];
+        if max_coord(want) > 32000.0 {
+            rec.class("skipped:coordinates-beyond-i16");
+            continue;
+        }
+        // rounding bound: f32 accumulation is exact on the grids used for static glyphs; for
+        // blended glyphs every operand contributes at most a few ulps at the magnitude reached
+        let tol = if gi.blends > 0 { 1e-3 + gi.nops as f64 * (max_coord(want) + 64.0) / 4_194_304.0 } else { 1e-3 };
+        let what = format!("glyph {} (fd {})", g, gi.fd);
+        // defect model for the known CFF2 finding
+        let alt = if cff2 && gi.fd != 0 {
+            Some((mine.outline(g, if b.vstore.is_some() { Some(&coords) } else { None }, &Deviations { cff2_fd0: true }), gi.fd0_sensitive))
+        } else {
+            None
+        };
+        // visit with the tuple (variable fonts) and, where no blend is used, without
+        let mut passes: Vec<Option<&OwnedTuple>> = Vec::new();
+        if let Some(t) = &tuple {
+            passes.push(Some(t));
+        }
+        if gi.blends == 0 {
+            passes.push(None);
+        }
+        // glyphs on which the known font-dict-0 deviation changes the result execute foreign
+        // subroutines in allsorts; a panic there is part of that finding
+        let fd0_class = match &alt {
+            Some((Ok(a), structural)) => *structural || diff_commands(a, want, tol).is_some(),
+            Some((Err(_), _)) => true,
+            None => false,
+        };
+        for t in passes {
+            if fd0_class {
+                match catch_unwind(AssertUnwindSafe(|| visit(&mut parsed, g as u16, t))) {
+                    Ok((res, sink)) => judge(tag, &what, &res, &sink, want, tol, &mut deferred, alt.as_ref())?,
+                    Err(_) => deferred.defer(Fail::new(
+                        "C18:cff2-local-subrs-from-fd0",
+                        format!("{}: allsorts panics while executing the subroutines of font dict 0 for a glyph of another font dict", what),
+                    )),
+                }
+                continue;
+            }
+            match visit_guarded(&mut parsed, g as u16, t, gi.hv_over_48) {
+                Ok((res, sink)) => judge(tag, &what, &res, &sink, want, tol, &mut deferred, alt.as_ref())?,
+                Err(()) => deferred.defer(Fail::new(
+                    "C18:cff2-hvcurveto-over-48-operands-panics",
+                    format!("{}: CFF2 hvcurveto/vhcurveto with more than 48 operands panics (temp buffer sized for CFF)", what),
+                )),
+            }
+        }
+    }
+
+    // ---- classification (each class once per case)
+    let mut curves = 0;
+    let mut calls = 0;
+    let mut masks = 0;
+    let mut cl: std::collections::BTreeSet<String> = std::collections::BTreeSet::new();
+    let mut add = |cond: bool, c: &str| {
+        if cond {
+            cl.insert(c.to_string());
+        }
+    };
+    for gi in &b.glyphs {
+        curves += gi.model.ncurves();
+        calls += gi.depth.min(1) as usize + gi.stats.calls;
+        masks += gi.stats.masks;
+        for f in &gi.stats.forms {
+            add(true, &format!("form:{}", f));
+        }
+        for f in &gi.stats.num_forms {
+            add(true, &format!("num:{}", f));
+        }
+        add(gi.stats.width, "width");
+        add(gi.stats.implicit_vstem, "implicit-vstem-before-mask");
+        add(gi.stats.masks > 0, "hintmask/cntrmask");
+        add(gi.stats.stems > 8, "stems>8 (mask bytes>1)");
+        add(gi.depth > 0, &format!("nesting:{:02}", gi.depth));
+        add(gi.fd != 0, "fd!=0");
+        add(gi.fd != 0 && gi.depth > 0, "fd!=0 with subr calls");
+        add(gi.blends > 0, "blend");
+        add(gi.model.contours.is_empty(), "empty-glyph");
+        add(gi.stats.max_args >= 48, "args>=48");
+        add(gi.stats.max_args > 48, "args>48 (cff2)");
+        add(gi.hv_over_48, "hv/vhcurveto args>48 (cff2)");
+    }
+    for c in &b.classes {
+        add(true, c);
+    }
+    add(via_sfnt, "via-sfnt");
+    // the engine keeps at most 64 labels per case: forms first
+    for c in cl.iter().filter(|c| !c.starts_with("num:")).chain(cl.iter().filter(|c| c.starts_with("num:"))) {
+        rec.class(c);
+    }
+    rec.set_nontrivial(curves >= 1 && (calls >= 1 || masks >= 1));
+    rec.evaluations(b.glyphs.len() as u64);
+    deferred.finish()
+}
+
+pub fn check_case(c: &Case, rec: &mut Rec) -> CaseResult {
+    let b = build(c);
+    for l in &b.dump {
+        eprintln!("{}", l);
+    }
+    rec.sample(|| {
+        format!(
+            "{:?} seed {:#x}: {} glyphs, {} table bytes; glyph0 {} contours/{} segs, forms {:?}",
+            c.kind,
+            c.seed,
+            b.glyphs.len(),
+            b.table.len(),
+            b.glyphs[0].model.contours.len(),
+            b.glyphs[0].model.nsegs(),
+            b.glyphs[0].stats.forms
+        )
+    });
+    check_built(&b, c.via_sfnt, rec)
+}
+
+// ------------------------------------------------------------------------------------------
+// seac: endchar with four (five with width) operands composes two StandardEncoding glyphs
+
+#[derive(Clone, Debug)]
+pub struct SeacCase {
+    pub seed: u64,
+    pub hints: bool,
+    /// the component charstrings carry their own width operand
+    pub component_width: bool,
+    pub seac_width: bool,
+    /// 0: ISOAdobe predefined charset (glyph id = SID), 1: format 0, 2: format 1
+    pub charset: u8,
+    pub free_forms: bool,
+}
+
+fn seac_strategy() -> impl Strategy<Value = SeacCase> {
+    (any::<u64>(), any::<bool>(), any::<bool>(), any::<bool>(), 0u8..3, any::<bool>()).prop_map(
+        |(seed, hints, component_width, seac_width, charset, free_forms)| SeacCase { seed, hints, component_width, seac_width, charset, free_forms },
+    )
+}
+
+fn shift(cmds: &[Cmd], dx: f64, dy: f64) -> Vec<Cmd> {
+    cmds.iter()
+        .map(|c| match c {
+            Cmd::Move(x, y) => Cmd::Move(x + dx, y + dy),
+            Cmd::Line(x, y) => Cmd::Line(x + dx, y + dy),
+            Cmd::Curve(a, b, c2, d, e, f) => Cmd::Curve(a + dx, b + dy, c2 + dx, d + dy, e + dx, f + dy),
+            Cmd::Close => Cmd::Close,
+        })
+        .collect()
+}
+
+pub fn check_seac(c: &SeacCase, rec: &mut Rec) -> CaseResult {
+    use crate::refmodel::type2::standard_encoding_sid;
+    let mut dec = Dec::new(c.seed);
+    // StandardEncoding codes that name a glyph
+    let codes: Vec<u8> = (0u16..256).map(|v| v as u8).filter(|v| standard_encoding_sid(*v) != 0).collect();
+    let bcode = codes[dec.below(codes.len())];
+    let mut acode = codes[dec.below(codes.len())];
+    if acode == bcode {
+        acode = if bcode == 65 { 194 } else { 65 };
+    }
+    let (bsid, asid) = (standard_encoding_sid(bcode), standard_encoding_sid(acode));
+    let grid = Grid::SMALL;
+    let po = PathOpts { grid, max_contours: 2, max_segs: 6, scale: 300, long_runs: false };
+    let comp = |dec: &mut Dec| -> (Vec<u8>, PathModel, EncStats) {
+        let plan = gen_glyph_plan(dec, &po, &[], &|_| false);
+        let eo = EncOpts {
+            cff2: false,
+            free_number_forms: c.free_forms,
+            hints: c.hints,
+            width: if c.component_width { Some(dec.range(1, 1000) * ONE) } else { None },
+            regions: 0,
+            vsindex: None,
+            blend_permille: 0,
+            delta_scale: 0,
+            inexact: false,
+        };
+        let mut e = Encoder::new(&eo);
+        e.glyph(dec, &plan, &[]);
+        (serialize(&e.toks, &|_, _| 0), plan.model(&[]), e.stats)
+    };
+    let (bcs, bmodel, bstats) = comp(&mut dec);
+    let (acs, amodel, astats) = comp(&mut dec);
+    let adx = dec.range(-500, 500);
+    let ady = dec.range(-500, 500);
+    let mut toks = Vec::new();
+    if c.seac_width {
+        toks.push(num(dec.range(1, 1000)));
+    }
+    toks.extend([num(adx), num(ady), num(bcode as i32), num(acode as i32), Tok::Op(op::ENDCHAR)]);
+    let seac_cs = serialize(&toks, &|_, _| 0);
+    let endchar = vec![op::ENDCHAR as u8];
+    // glyph ids
+    let (charstrings, charset, seac_gid) = if c.charset == 0 {
+        let mut cs = vec![endchar.clone(); 229];
+        cs[bsid as usize] = bcs;
+        cs[asid as usize] = acs;
+        // the composite takes a slot that is not one of the components
+        let g = (1..229u16).find(|g| *g != bsid && *g != asid).unwrap();
+        cs[g as usize] = seac_cs;
+        (cs, CharsetModel::IsoAdobe, g)
+    } else {
+        let cs = vec![endchar.clone(), acs, seac_cs, bcs];
+        let sids = vec![asid, 200, bsid];
+        (cs, if c.charset == 1 { CharsetModel::Format0(sids) } else { CharsetModel::Format1(sids) }, 2u16)
+    };
+    let mut m = CffModel::simple(charstrings);
+    m.charset = charset;
+    m.kind = CffKind::NameKeyed { private: PrivateModel { nominal_width_x: Some(500), default_width_x: Some(400), ..Default::default() } };
+    let table = build_cff(&m);
+    rec.artefact("table", &table);
+    rec.hash_bytes(&table);
+    let mut want = bmodel.commands(None);
+    want.extend(shift(&amodel.commands(None), adx as f64, ady as f64));
+    let what = format!("seac glyph {} (base code {}, accent code {}, accent origin {} {})", seac_gid, bcode, acode, adx, ady);
+    match T2Font::parse_cff(&table).and_then(|f| f.outline(seac_gid as usize, None, &Deviations::default())) {
+        Ok(cmds) => {
+            if let Some(d) = diff_commands(&cmds, &want, 1e-6) {
+                panic!("harness self-check ({}): my interpreter disagrees with the model: {}", what, d);
+            }
+        }
+        Err(e) => panic!("harness self-check ({}): my interpreter fails: {}", what, e),
+    }
+    let mut parsed = parse_table(false, &table, "cff")?;
+    rec.class("seac");
+    rec.class_if(c.component_width, "seac:components-with-width");
+    rec.class_if(c.seac_width, "seac:width");
+    rec.class_if(bstats.masks > 0 && astats.masks > 0, "seac:both-components-masked");
+    rec.class_if(bstats.stems > 0 && astats.masks > 0, "seac:accent-masked-after-hinted-base");
+    rec.class_if(c.charset == 0 && (bcode > 228 || acode > 228), "seac:isoadobe-code>228");
+    rec.set_nontrivial(bmodel.ncurves() + amodel.ncurves() > 0);
+    let visited = catch_unwind(AssertUnwindSafe(|| visit(&mut parsed, seac_gid, None)));
+    let ok = match &visited {
+        Ok((res, sink)) => res.is_ok() && sink.quads == 0 && diff_commands(&sink.cmds, &want, 1e-3).is_none(),
+        Err(_) => false,
+    };
+    if !ok {
+        // Attribute to the specific seac defects by input class, in the order in which allsorts
+        // reaches them; anything outside these classes is judged (or re-raised) below.
+        let got = match &visited {
+            Ok((res, sink)) => format!("{:?}, delivered {}", res, render(&sink.cmds)),
+            Err(_) => "panic".to_string(),
+        };
+        let detail = format!("{}: {} — expected {}", what, got, render(&want));
+        if c.charset == 0 && (bcode > 228 || acode > 228) {
+            return Err(Fail::new("C18:seac-isoadobe-code-above-228", format!("StandardEncoding code above 228 in a font with the ISOAdobe charset; {}", detail)));
+        }
+        if !c.seac_width && visited.is_err() {
+            return Err(Fail::new("C18:seac-without-width-panics", format!("four-operand endchar (no width): {}", detail)));
+        }
+        if c.component_width {
+            return Err(Fail::new("C18:seac-component-width", format!("components that carry their own width operand; {}", detail)));
+        }
+        if bstats.stems > 0 && astats.masks > 0 {
+            return Err(Fail::new("C18:seac-stem-count-not-reset", format!("accent with hintmask after a hinted base; {}", detail)));
+        }
+    }
+    let (res, sink) = match visited {
+        Ok(v) => v,
+        Err(payload) => resume_unwind(payload),
+    };
+    let mut d = Deferred::default();
+    judge("cff-seac", &what, &res, &sink, &want, 1e-3, &mut d, None)?;
+    d.finish()
+}
+
+// ------------------------------------------------------------------------------------------
+// deterministic enumerations: nesting depth, bias bands, stack limits
+
+fn simple_font(kind: Kind, charstrings: Vec<Vec<u8>>, gsubrs: Vec<Vec<u8>>, lsubrs: Vec<Vec<u8>>) -> Vec<u8> {
+    let private = PrivateModel { subrs: if lsubrs.is_empty() { None } else { Some(lsubrs) }, ..Default::default() };
+    match kind {
+        Kind::NameKeyed => {
+            let mut m = CffModel::simple(charstrings);
+            m.global_subrs = gsubrs;
+            m.kind = CffKind::NameKeyed { private };
+            build_cff(&m)
+        }
+        Kind::Cid => {
+            // glyphs use font dict 1; font dict 0 has a decoy subroutine set
+            let n = charstrings.len();
+            let mut m = CffModel::simple(charstrings);
+            m.global_subrs = gsubrs;
+            m.charset = CharsetModel::Format2((1..n as u16).collect());
+            let decoy = PrivateModel { subrs: Some(vec![vec![op::ENDCHAR as u8]; 3]), ..Default::default() };
+            m.kind = CffKind::Cid { fds: vec![decoy, private], fd_select: vec![1; n], fd_select_format: 3 };
+            build_cff(&m)
+        }
+        Kind::Cff2 => {
+            let mut m = Cff2Model::simple(charstrings);
+            m.global_subrs = gsubrs;
+            m.fds = vec![private];
+            build_cff2(&m)
+        }
+    }
+}
+
+fn num(v: i32) -> Tok {
+    Tok::Num { v: v * ONE, form: NumForm::Short, comp: None, var: None, blendable: false }
+}
+
+fn expect_path(kind: Kind, table: &[u8], gid: u16, want: &[Cmd], what: &str, rec: &mut Rec) -> CaseResult {
+    let tag = kind.tag();
+    rec.artefact("table", table);
+    rec.hash_bytes(table);
+    let cff2 = kind == Kind::Cff2;
+    let mine = if cff2 { T2Font::parse_cff2(table) } else { T2Font::parse_cff(table) };
+    match mine.and_then(|m| m.outline(gid as usize, None, &Deviations::default())) {
+        Ok(c) => {
+            if let Some(d) = diff_commands(&c, want, 1e-6) {
+                panic!("harness self-check ({}): my interpreter disagrees with the expectation: {}", what, d);
+            }
+        }
+        Err(e) => panic!("harness self-check ({}): my interpreter fails: {}", what, e),
+    }
+    let mut parsed = parse_table(cff2, table, tag)?;
+    let (res, sink) = visit(&mut parsed, gid, None);
+    let mut deferred = Deferred::default();
+    judge(tag, what, &res, &sink, want, 1e-3, &mut deferred, None)?;
+    deferred.finish()
+}
+
+fn expect_error(kind: Kind, table: &[u8], gid: u16, what: &str, sig: &str, rec: &mut Rec) -> CaseResult {
+    let tag = kind.tag();
+    rec.artefact("table", table);
+    rec.hash_bytes(table);
+    let cff2 = kind == Kind::Cff2;
+    let mut parsed = parse_table(cff2, table, tag)?;
+    let (res, sink) = visit(&mut parsed, gid, None);
+    if res.is_ok() {
+        return Err(Fail::new(format!("C18:{}:{}", tag, sig), format!("{}: visit succeeded, delivered {}", what, render(&sink.cmds))));
+    }
+    Ok(())
+}
+
+const KINDS: [Kind; 3] = [Kind::NameKeyed, Kind::Cid, Kind::Cff2];
+
+/// chain of `depth` nested subroutines; the innermost draws a line. pattern 0: all local,
+/// 1: all global, 2: alternating (main -> global -> local -> ...)
+fn nesting_case(i: u64, rec: &mut Rec) -> CaseResult {
+    let depths = [1u32, 2, 3, 9, 10, 11, 12];
+    let kind = KINDS[(i % 3) as usize];
+    let pattern = ((i / 3) % 3) as usize;
+    let depth = depths[((i / 9) as usize) % depths.len()];
+    let cff2 = kind == Kind::Cff2;
+    let is_global = |level: u32| match pattern {
+        0 => false,
+        1 => true,
+        _ => level % 2 == 1,
+    };
+    // level L (1..=depth) lives at index L-1 of its table... tables hold only their own levels
+    let mut gl: Vec<Vec<Tok>> = Vec::new();
+    let mut lo: Vec<Vec<Tok>> = Vec::new();
+    let mut ids = Vec::new();
+    for level in 1..=depth {
+        let g = is_global(level);
+        let id = if g { gl.len() } else { lo.len() };
+        ids.push((g, id));
+        if g {
+            gl.push(Vec::new())
+        } else {
+            lo.push(Vec::new())
+        }
+    }
+    for level in 1..=depth {
+        let mut body = Vec::new();
+        if level == depth {
+            body.extend([num(30), num(40), Tok::Op(op::RLINETO)]);
+        } else {
+            let (g, id) = ids[level as usize];
+            body.push(Tok::Call { global: g, id, form: NumForm::Short });
+        }
+        // every level also draws something after the call returns
+        body.extend([num(level as i32), Tok::Op(op::HLINETO)]);
+        if !cff2 {
+            body.push(Tok::Op(op::RETURN));
+        }
+        let (g, id) = ids[level as usize - 1];
+        if g {
+            gl[id] = body
+        } else {
+            lo[id] = body
+        }
+    }
+    let mut main = vec![num(10), num(20), Tok::Op(op::RMOVETO), Tok::Call { global: ids[0].0, id: ids[0].1, form: NumForm::Short }];
+    if !cff2 {
+        main.push(Tok::Op(op::ENDCHAR));
+    }
+    let gl_l = SubrLayout::identity(gl.len());
+    let lo_l = SubrLayout::identity(lo.len());
+    let ser = |t: &[Tok]| serialize(t, &|g, id| if g { gl_l.number(id) } else { lo_l.number(id) });
+    let table = simple_font(kind, vec![ser(&main)], gl.iter().map(|t| ser(t)).collect(), lo.iter().map(|t| ser(t)).collect());
+    let what = format!("{:?}, nesting depth {} ({})", kind, depth, ["local", "global", "alternating"][pattern]);
+    rec.class(&format!("nesting-depth:{}", depth));
+    rec.set_nontrivial(true);
+    if depth <= 10 {
+        let mut want = vec![Cmd::Move(10.0, 20.0), Cmd::Line(40.0, 60.0)];
+        let mut x = 40.0;
+        for level in (1..=depth).rev() {
+            x += level as f64;
+            want.push(Cmd::Line(x, 60.0));
+        }
+        want.push(Cmd::Close);
+        expect_path(kind, &table, 0, &want, &what, rec)
+    } else {
+        expect_error(kind, &table, 0, &what, "nesting-limit-not-enforced", rec)
+    }
+}
+
+const BIAS_SIZES: [usize; 18] = [1, 2, 107, 108, 214, 215, 216, 1238, 1239, 1240, 1241, 2371, 2372, 33898, 33899, 33900, 33901, 65535];
+
+fn bias_case(i: u64, rec: &mut Rec) -> CaseResult {
+    let kind = KINDS[(i % 3) as usize];
+    let global = (i / 3) % 2 == 1;
+    let size = BIAS_SIZES[((i / 6) as usize) % BIAS_SIZES.len()];
+    let posk = ((i / 6) as usize / BIAS_SIZES.len()) % 5;
+    let bias = subr_bias(size) as i64;
+    let pos = match posk {
+        0 => 0,
+        1 => size - 1,
+        2 => size / 2,
+        3 => (bias.clamp(0, size as i64 - 1)) as usize,          // operand 0
+        _ => ((bias + 108).clamp(0, size as i64 - 1)) as usize, // operand 108: two-byte number
+    };
+    let cff2 = kind == Kind::Cff2;
+    // every filler subroutine draws something *different*, so that an off-by-one index shows
+    let filler = |k: usize| -> Vec<u8> {
+        let mut t = vec![num(-(1 + (k % 50) as i32)), Tok::Op(op::VLINETO)];
+        if !cff2 {
+            t.push(Tok::Op(op::RETURN));
+        }
+        serialize(&t, &|_, _| 0)
+    };
+    let mut body = vec![num(30), num(40), Tok::Op(op::RLINETO)];
+    if !cff2 {
+        body.push(Tok::Op(op::RETURN));
+    }
+    let mut subrs: Vec<Vec<u8>> = (0..size).map(filler).collect();
+    subrs[pos] = serialize(&body, &|_, _| 0);
+    let layout = SubrLayout { size, pos: vec![pos] };
+    let mut main = vec![num(10), num(20), Tok::Op(op::RMOVETO), Tok::Call { global, id: 0, form: NumForm::Short }];
+    if !cff2 {
+        main.push(Tok::Op(op::ENDCHAR));
+    }
+    let cs = serialize(&main, &|_, id| layout.number(id));
+    let table = if global { simple_font(kind, vec![cs], subrs, Vec::new()) } else { simple_font(kind, vec![cs], Vec::new(), subrs) };
+    let what = format!("{:?}, {} INDEX of {} subroutines, call of index {} (operand {})", kind, if global { "global" } else { "local" }, size, pos, layout.number(0));
+    rec.class(&format!("bias:{}", bias));
+    rec.class_if(size == 1239 || size == 1240 || size == 33899 || size == 33900, &format!("index-size:{}", size));
+    rec.set_nontrivial(true);
+    let want = vec![Cmd::Move(10.0, 20.0), Cmd::Line(40.0, 60.0), Cmd::Close];
+    expect_path(kind, &table, 0, &want, &what, rec)
+}
+
+/// every path operator with the largest legal operand count (48 for CFF; for CFF2 also counts
+/// just above 48 and the 513 maximum)
+fn stack_case(i: u64, rec: &mut Rec) -> CaseResult {
+    const OPS: [&str; 10] = ["rlineto", "hlineto", "vlineto", "rrcurveto", "hhcurveto", "vvcurveto", "hvcurveto", "vhcurveto", "rcurveline", "rlinecurve"];
+    let name = OPS[(i % 10) as usize];
+    let variant = (i / 10) % 4; // 0: CFF 48, 1: CFF2 ~50..60, 2: CFF2 ~513, 3: CID 48
+    let (kind, limit) = match variant {
+        0 => (Kind::NameKeyed, 48usize),
+        1 => (Kind::Cff2, 60),
+        2 => (Kind::Cff2, 513),
+        _ => (Kind::Cid, 48),
+    };
+    let cff2 = kind == Kind::Cff2;
+    // segments fitting the operator, as many as the limit allows
+    let mut segs: Vec<Seg> = Vec::new();
+    let u = ONE;
+    let nargs;
+    match name {
+        "rlineto" => {
+            let n = limit / 2;
+            for k in 0..n {
+                segs.push(Seg::Line([(1 + k as i32 % 5) * u, if k % 2 == 0 { 2 * u } else { -2 * u }]));
+            }
+            nargs = 2 * n;
+        }
+        "hlineto" | "vlineto" => {
+            let n = limit;
+            let mut h = name == "hlineto";
+            for k in 0..n {
+                let v = (1 + k as i32 % 3) * u * if k % 4 < 2 { 1 } else { -1 };
+                segs.push(if h { Seg::Line([v, 0]) } else { Seg::Line([0, v]) });
+                h = !h;
+            }
+            nargs = n;
+        }
+        "rrcurveto" => {
+            let n = limit / 6;
+            for k in 0..n {
+                let s = if k % 2 == 0 { 1 } else { -1 };
+                segs.push(Seg::Curve([u, 2 * u * s, 3 * u, u * s, 2 * u, -u * s]));
+            }
+            nargs = 6 * n;
+        }
+        "hhcurveto" | "vvcurveto" => {
+            let n = (limit - 1) / 4;
+            for k in 0..n {
+                let lead = if k == 0 { 5 * u } else { 0 };
+                segs.push(if name == "hhcurveto" { Seg::Curve([u, lead, 2 * u, 3 * u, u, 0]) } else { Seg::Curve([lead, u, 2 * u, 3 * u, 0, u]) });
+            }
+            nargs = 4 * n + 1;
+        }
+        "hvcurveto" | "vhcurveto" => {
+            let n = (limit - 1) / 4;
+            let mut hv = name == "hvcurveto";
+            for k in 0..n {
+                let last = k + 1 == n;
+                let t = if last { 7 * u } else { 0 };
+                segs.push(if hv { Seg::Curve([u, 0, 2 * u, u, t, -u]) } else { Seg::Curve([0, u, u, 2 * u, -u, t]) });
+                hv = !hv;
+            }
+            nargs = 4 * n + 1;
+        }
+        "rcurveline" => {
+            let n = (limit - 2) / 6;
+            for _ in 0..n {
+                segs.push(Seg::Curve([u, 2 * u, 3 * u, u, 2 * u, -u]));
+            }
+            segs.push(Seg::Line([4 * u, 5 * u]));
+            nargs = 6 * n + 2;
+        }
+        _ => {
+            let n = (limit - 6) / 2;
+            for k in 0..n {
+                segs.push(Seg::Line([u, if k % 2 == 0 { u } else { -u }]));
+            }
+            segs.push(Seg::Curve([u, 2 * u, 3 * u, u, 2 * u, -u]));
+            nargs = 2 * n + 6;
+        }
+    }
+    // encode by hand: all operands of all segments in the operator's order, one operator
+    let mut toks = vec![num(100), num(100), Tok::Op(op::RMOVETO)];
+    let push = |toks: &mut Vec<Tok>, v: i32| toks.push(Tok::Num { v, form: NumForm::Short, comp: None, var: None, blendable: false });
+    match name {
+        "rlineto" | "rrcurveto" | "rcurveline" | "rlinecurve" => {
+            for s in &segs {
+                for v in s.comps() {
+                    push(&mut toks, *v);
+                }
+            }
+        }
+        "hlineto" | "vlineto" => {
+            for s in &segs {
+                let c = s.comps();
+                push(&mut toks, if c[0] != 0 { c[0] } else { c[1] });
+            }
+        }
+        "hhcurveto" | "vvcurveto" => {
+            let hh = name == "hhcurveto";
+            for (k, s) in segs.iter().enumerate() {
+                let c = s.comps();
+                if k == 0 {
+                    push(&mut toks, if hh { c[1] } else { c[0] });
+                }
+                if hh {
+                    for j in [0, 2, 3, 4] {
+                        push(&mut toks, c[j]);
+                    }
+                } else {
+                    for j in [1, 2, 3, 5] {
+                        push(&mut toks, c[j]);
+                    }
+                }
+            }
+        }
+        _ => {
+            let mut hv = name == "hvcurveto";
+            for (k, s) in segs.iter().enumerate() {
+                let c = s.comps();
+                let last = k + 1 == segs.len();
+                if hv {
+                    for j in [0, 2, 3, 5] {
+                        push(&mut toks, c[j]);
+                    }
+                    if last {
+                        push(&mut toks, c[4]);
+                    }
+                } else {
+                    for j in [1, 2, 3, 4] {
+                        push(&mut toks, c[j]);
+                    }
+                    if last {
+                        push(&mut toks, c[5]);
+                    }
+                }
+                hv = !hv;
+            }
+        }
+    }
+    debug_assert_eq!(toks.len() - 3, nargs);
+    toks.push(Tok::Op(match name {
+        "rlineto" => op::RLINETO,
+        "hlineto" => op::HLINETO,
+        "vlineto" => op::VLINETO,
+        "rrcurveto" => op::RRCURVETO,
+        "hhcurveto" => op::HHCURVETO,
+        "vvcurveto" => op::VVCURVETO,
+        "hvcurveto" => op::HVCURVETO,
+        "vhcurveto" => op::VHCURVETO,
+        "rcurveline" => op::RCURVELINE,
+        _ => op::RLINECURVE,
+    }));
+    if !cff2 {
+        toks.push(Tok::Op(op::ENDCHAR));
+    }
+    let cs = serialize(&toks, &|_, _| 0);
+    let table = simple_font(kind, vec![cs], Vec::new(), Vec::new());
+    let model = PathModel { contours: vec![t2::Contour { mv: [100 * u, 100 * u], segs }], deltas: Default::default() };
+    let want = model.commands(None);
+    let what = format!("{:?}, {} with {} operands", kind, name, nargs);
+    rec.class(&format!("stack:{}:{}", name, if nargs > 48 { ">48" } else { "<=48" }));
+    rec.set_nontrivial(true);
+    if cff2 && nargs > 48 && (name == "hvcurveto" || name == "vhcurveto") {
+        // known panic class: attribute narrowly
+        rec.artefact("table", &table);
+        let mut parsed = parse_table(true, &table, "cff2")?;
+        return match visit_guarded(&mut parsed, 0, None, true) {
+            Ok((res, sink)) => {
+                let mut d = Deferred::default();
+                judge("cff2", &what, &res, &sink, &want, 1e-3, &mut d, None)?;
+                d.finish()
+            }
+            Err(()) => Err(Fail::new(
+                "C18:cff2-hvcurveto-over-48-operands-panics",
+                format!("{}: panics (temp buffer of the hv/vh curve parser is sized for CFF's 48 operands)", what),
+            )),
+        };
+    }
+    expect_path(kind, &table, 0, &want, &what, rec)
+}
+
+/// CFF2 corner cases built by hand.
+/// 0: `blend` under an ItemVariationData subtable that refers to no region (k = 0)
+/// 1: the same through an explicit `vsindex`
+/// 2: two blends feeding one operator, hint operands blended
+fn cff2_special_case(i: u64, rec: &mut Rec) -> CaseResult {
+    let vs = VarStoreModel { axis_count: 1, regions: vec![vec![[0, 16384, 16384]]], data: vec![vec![], vec![0]] };
+    let tuple = [8192i16];
+    let (dflt_vsindex, toks, want): (u16, Vec<Tok>, Vec<Cmd>) = match i {
+        0 => (
+            0,
+            vec![num(10), num(20), num(2), Tok::Op(op::BLEND), Tok::Op(op::RMOVETO), num(30), num(40), Tok::Op(op::RLINETO)],
+            vec![Cmd::Move(10.0, 20.0), Cmd::Line(40.0, 60.0), Cmd::Close],
+        ),
+        1 => (
+            1,
+            vec![num(0), Tok::Op(op::VSINDEX), num(10), num(20), num(2), Tok::Op(op::BLEND), Tok::Op(op::RMOVETO), num(30), num(40), Tok::Op(op::RLINETO)],
+            vec![Cmd::Move(10.0, 20.0), Cmd::Line(40.0, 60.0), Cmd::Close],
+        ),
+        _ => (
+            1,
+            vec![
+                // hstem 100 (+8) 50 (+4)
+                num(100), num(50), num(8), num(4), num(2), Tok::Op(op::BLEND), Tok::Op(op::HSTEM),
+                // rmoveto 10 (+2·0.5) 20 (+6·0.5) in two blends
+                num(10), num(2), num(1), Tok::Op(op::BLEND), num(20), num(6), num(1), Tok::Op(op::BLEND), Tok::Op(op::RMOVETO),
+                num(30), num(40), Tok::Op(op::RLINETO),
+            ],
+            vec![Cmd::Move(11.0, 23.0), Cmd::Line(41.0, 63.0), Cmd::Close],
+        ),
+    };
+    let mut m = Cff2Model::simple(vec![serialize(&toks, &|_, _| 0)]);
+    m.vstore = Some(vs);
+    m.fds[0].vsindex = Some(dflt_vsindex);
+    let table = build_cff2(&m);
+    rec.artefact("table", &table);
+    rec.hash_bytes(&table);
+    rec.set_nontrivial(true);
+    let what = format!("CFF2 special case {}", i);
+    let mine = T2Font::parse_cff2(&table).and_then(|f| f.outline(0, Some(&[0.5]), &Deviations::default()));
+    match mine {
+        Ok(c) if diff_commands(&c, &want, 1e-9).is_none() => {}
+        other => panic!("harness self-check ({}): my interpreter gives {:?}", what, other),
+    }
+    let mut parsed = parse_table(true, &table, "cff2")?;
+    let t = owned_tuple(&tuple)?;
+    let r = catch_unwind(AssertUnwindSafe(|| visit(&mut parsed, 0, Some(&t))));
+    match r {
+        Ok((res, sink)) => {
+            let mut d = Deferred::default();
+            judge("cff2", &what, &res, &sink, &want, 1e-3, &mut d, None)?;
+            d.finish()
+        }
+        Err(payload) => {
+            let msg = payload.downcast_ref::<String>().cloned().or_else(|| payload.downcast_ref::<&str>().map(|s| s.to_string())).unwrap_or_default();
+            if i < 2 && msg.contains("chunk size must be non-zero") {
+                Err(Fail::new(
+                    "C18:cff2-blend-with-zero-regions-panics",
+                    format!("{}: `blend` under an ItemVariationData subtable without regions panics: {}", what, msg),
+                ))
+            } else {
+                resume_unwind(payload)
+            }
+        }
+    }
+}
+
+// ------------------------------------------------------------------------------------------
+// real fonts: allsorts vs. my interpreter, glyph by glyph
+
+fn fixture_fonts() -> Vec<String> {
+    let mut v = Vec::new();
+    for dir in ["fonts", "font_specimen", "aots"] {
+        for f in fixtures::list(dir, &["otf"], 8 << 20) {
+            v.push(f);
+        }
+    }
+    v
+}
+
+const FIXTURE_CHUNK: usize = 64;
+
+/// item = (font index, chunk index); quick looks at a sample of chunks of the big fonts
+fn fixture_case(font_rel: &str, chunk: usize, stride: usize, rec: &mut Rec) -> CaseResult {
+    let data = match fixtures::read(font_rel) {
+        Some(d) => d,
+        None => return Ok(()),
+    };
+    let (table, cff2) = match (find_table(&data, b"CFF "), find_table(&data, b"CFF2")) {
+        (Some(t), _) => (t, false),
+        (_, Some(t)) => (t, true),
+        _ => return Ok(()),
+    };
+    let mine = if cff2 { T2Font::parse_cff2(table) } else { T2Font::parse_cff(table) };
+    let mine = match mine {
+        Ok(m) => m,
+        Err(e) => {
+            // my reader is the weaker party on exotic real fonts: count, do not judge
+            rec.class(&format!("fixture-unreadable-by-refmodel:{}", e.chars().take(40).collect::<String>()));
+            return Ok(());
+        }
+    };
+    let tag = if cff2 { "cff2" } else if mine.cid { "cid" } else { "cff" };
+    let mut parsed = parse_table(cff2, table, tag)?;
+    // variation tuples for variable CFF2 fonts
+    let axis_count = mine.vstore.as_ref().map(|v| v.axis_count).unwrap_or(0);
+    let mut tuples: Vec<Vec<i16>> = Vec::new();
+    if axis_count > 0 {
+        for t in [0i16, 16384, -16384, 8192, -4000, 1] {
+            tuples.push(vec![t; axis_count]);
+        }
+    }
+    let n = mine.charstrings.len();
+    let lo = chunk * FIXTURE_CHUNK * stride;
+    let mut deferred = Deferred::default();
+    let mut checked = 0u64;
+    let mut nontrivial = false;
+    for k in 0..FIXTURE_CHUNK {
+        let g = lo + k * stride;
+        if g >= n {
+            break;
+        }
+        let mut variants: Vec<Option<&Vec<i16>>> = vec![None];
+        for t in &tuples {
+            variants.push(Some(t));
+        }
+        for tv in variants {
+            let coords: Option<Vec<f64>> = tv.map(|t| t.iter().map(|v| *v as f64 / 16384.0).collect());
+            let want = mine.outline(g, coords.as_deref(), &Deviations::default());
+            let ot = match tv {
+                Some(t) => Some(owned_tuple(t)?),
+                None => None,
+            };
+            let (res, sink) = visit(&mut parsed, g as u16, ot.as_ref());
+            checked += 1;
+            match want {
+                Ok(want) => {
+                    if max_coord(&want) > 32000.0 {
+                        continue;
+                    }
+                    nontrivial |= want.iter().any(|c| matches!(c, Cmd::Curve(..)));
+                    let alt = if cff2 && mine.fd_of(g) != 0 { Some((mine.outline(g, coords.as_deref(), &Deviations { cff2_fd0: true }), false)) } else { None };
+                    let tol = if tv.is_some() { 0.05 } else { 1e-3 };
+                    judge(tag, &format!("{} glyph {} tuple {:?}", font_rel, g, tv), &res, &sink, &want, tol, &mut deferred, alt.as_ref())?;
+                }
+                Err(e) => {
+                    // my interpreter refuses (unsupported operator, blend without tuple, ...):
+                    // nothing to compare against
+                    rec.class(&format!("fixture-glyph-not-interpretable:{}", e.chars().take(32).collect::<String>()));
+                }
+            }
+        }
+    }
+    rec.class(&format!("fixture:{}", tag));
+    rec.set_nontrivial(nontrivial);
+    rec.hash_bytes(font_rel.as_bytes());
+    rec.hash_u64(chunk as u64);
+    rec.evaluations(checked);
+    deferred.finish()
+}
+
+// ------------------------------------------------------------------------------------------
 
 impl Property for C18 {
     fn id(&self) -> &'static str {
         "C18"
     }
     fn rule(&self) -> String {
-        "not implemented".to_string()
+        "A case is a generated font: a seed and size/feature parameters determine 1-8 glyph path models (0-4 contours of \
+         relative line/cubic segments on a grid on which f32 accumulation is exact; integer, 1/256 or full 16.16 values), \
+         their Type 2 encoding (operator form per run, number forms, width, stem hints and masks, shared fragment \
+         subroutines, random token-range cuts into nested local/global subroutines, INDEX padding to the bias boundaries, \
+         CFF2 blend/vsindex at a random tuple) and the container (name-keyed CFF, CID-keyed CFF with 2-3 font dicts, CFF2). \
+         Non-trivial = the font has at least one curve and at least one subroutine call or hintmask/cntrmask; distinct = \
+         distinct table bytes. Enumerations: nesting depth 1..12 x local/global/alternating x container; INDEX sizes around \
+         every bias boundary x called position; every path operator at the largest legal operand count; all CFF/CFF2 \
+         fixture fonts glyph by glyph against an independent interpreter."
+            .into()
     }
-    fn run(&self, _ctx: &mut Ctx) {}
+    fn assumptions(&self) -> Vec<String> {
+        vec![
+            "my Type 2 encoder, CFF/CFF2 builder and interpreter implement TN #5176/#5177 and the CFF2 chapters correctly; \
+             every generated glyph is first interpreted by my own interpreter and must reproduce the model (else HARNESS-ERROR)"
+                .into(),
+            "absolute coordinates stay within ±30000 (allsorts refuses outlines whose bounding box does not fit i16, which the property does not forbid)".into(),
+            "a subroutine that ends in endchar carries no dead `return` after it; nothing follows endchar".into(),
+            "blend without a variation tuple is an error by allsorts' documented API (tuple required if the font is variable): glyphs with blends are visited with a tuple only".into(),
+            "OwnedTuple values are constructed through a generated fvar table (the only public constructor)".into(),
+        ]
+    }
+    fn run(&self, ctx: &mut Ctx) {
+        let n = ctx.cases(160_000, 2_400_000);
+        ctx.section("cff-name-keyed", n * 4 / 10, case_strategy(Kind::NameKeyed), check_case);
+        ctx.section("cff-cid-keyed", n * 3 / 10, case_strategy(Kind::Cid), check_case);
+        ctx.section("cff2", n * 3 / 10, case_strategy(Kind::Cff2), check_case);
+        ctx.section("cff-seac", n / 20, seac_strategy(), check_seac);
+        ctx.enumerate("nesting-depth", 7 * 9, true, nesting_case);
+        ctx.enumerate("bias-bands", (6 * BIAS_SIZES.len() * 5) as u64, true, bias_case);
+        ctx.enumerate("stack-limits", 40, true, stack_case);
+        ctx.enumerate("cff2-special", 3, true, cff2_special_case);
+        // fixtures: (font, chunk) items
+        let fonts = fixture_fonts();
+        let thorough = ctx.thorough();
+        let mut items: Vec<(String, usize, usize)> = Vec::new();
+        for f in &fonts {
+            let len = fixtures::tests_dir().join(f).metadata().map(|m| m.len()).unwrap_or(0);
+            // rough glyph-count guess from the file size keeps the item list cheap to build
+            let nglyph_guess = if len > 1_000_000 { 18000 } else if len > 100_000 { 2000 } else if len > 20_000 { 400 } else { 64 };
+            let stride = if thorough { 1 } else if nglyph_guess > 4000 { 16 } else if nglyph_guess > 1000 { 4 } else { 1 };
+            let chunks = (nglyph_guess + FIXTURE_CHUNK * stride - 1) / (FIXTURE_CHUNK * stride);
+            for c in 0..chunks {
+                items.push((f.clone(), c, stride));
+            }
+        }
+        let total = items.len() as u64;
+        ctx.enumerate("fixture-fonts", total, true, move |i, rec| {
+            let (f, c, s) = &items[i as usize];
+            fixture_case(f, *c, *s, rec)
+        });
+    }
 }
